@@ -47,6 +47,16 @@ def make_upstreams(base):
             git(w, 'add', '.'); git(w, 'commit', '-q', '-m', 'd1')
             git(w, 'checkout', '-q', 'master')
         git(base, 'clone', '-q', '--bare', w, os.path.join(base, name + '.git'))
+    # two releases of a tarball with the same file name (url SCM without digest): lib.h changes, a.txt is dropped, b.txt is new
+    import tarfile, io
+    for ver, members in (('1.0', {'lib.h': 'upstream lib v1\n', 'a.txt': 'only in 1.0\n'}), ('2.0', {'lib.h': 'upstream lib v2\n', 'b.txt': 'only in 2.0\n'})):
+        os.makedirs(os.path.join(base, 'tars', ver))
+        with tarfile.open(os.path.join(base, 'tars', ver, 'data.tar'), 'w') as tar:
+            for n, c in sorted(members.items()):
+                ti = tarfile.TarInfo(n); ti.size = len(c); ti.mtime = 1500000000
+                tar.addfile(ti, io.BytesIO(c.encode()))
+        t = 1600000000 + (0 if ver == '2.0' else 1000)      # the newer release is the older file
+        os.utime(os.path.join(base, 'tars', ver, 'data.tar'), (t, t))
     return info
 
 
@@ -66,10 +76,10 @@ def upstream(base, action, k):
         git(w, 'push', '-q', '-f', bare, 'v1')
 
 
-SPEC0 = dict(url='repo1', ref='branch:master', dir='.', nested=0, rebase=0, dep=1)
+SPEC0 = dict(url='repo1', ref='branch:master', dir='.', nested=0, rebase=0, dep=1, urlnest=0, urlver=0)
 SPEC_BC = dict(SPEC0, ref='bc0')                  # branch master + commit c0 (gitCommitOnBranch)
 SPEC_NESTED = dict(SPEC0, nested=1)
-INITS = {'default': SPEC0, 'branch+commit': SPEC_BC, 'nested': SPEC_NESTED}
+INITS = {'default': SPEC0, 'branch+commit': SPEC_BC, 'nested': SPEC_NESTED, 'urlnest': dict(SPEC0, urlnest=1)}
 
 
 def files(spec, base, info):
@@ -86,6 +96,8 @@ def files(spec, base, info):
     if spec['dir'] != '.': lines.append('      dir: %s' % spec['dir'])
     if spec['nested']:
         lines += ['    - scm: git', '      url: "file://%s.git"' % os.path.join(base, 'repo2'), '      dir: nested']
+    if spec['urlnest']:
+        lines += ['    - scm: url', '      url: "file://%s/tars/%s/data.tar"' % (base, '2.0' if spec['urlver'] else '1.0'), '      dir: vendor']
     f = {'config.yaml': 'bobMinimumVersion: "0.25"\n',
          'recipes/p.yaml': 'checkoutSCM:\n' + '\n'.join(lines) + '\nbuildScript: "true"\npackageScript: "true"\n',
          'recipes/top.yaml': 'root: True\n' + ('depends: [p]\n' if spec['dep'] else '') + 'buildScript: "true"\npackageScript: "true"\n'}
@@ -94,9 +106,10 @@ def files(spec, base, info):
 
 SPEC_ACTIONS = {'s_dev': ('ref', 'branch:dev'), 's_tag': ('ref', 'tag'), 's_commit': ('ref', 'commit'), 's_master': ('ref', 'branch:master'),
                 's_dir': ('dir', None), 's_url': ('url', None), 's_nested': ('nested', None), 's_rebase': ('rebase', None),
-                's_bc0': ('ref', 'bc0'), 's_bc1': ('ref', 'bc1'), 's_drop': ('dep', None)}
+                's_bc0': ('ref', 'bc0'), 's_bc1': ('ref', 'bc1'), 's_drop': ('dep', None), 's_urlnest': ('urlnest', None), 's_urlver': ('urlver', None)}
 UP_ACTIONS = ['u_commit', 'u_rewrite']      # moving a tag is excluded: "Tags never change" is a documented assumption of Bob
-USER_ACTIONS = ['w_mod', 'w_untracked', 'w_commit', 'w_branch', 'w_detach', 'w_side', 'w_commit_side']
+USER_ACTIONS = ['w_mod', 'w_untracked', 'w_commit', 'w_branch', 'w_detach', 'w_side', 'w_commit_side', 'w_vendor']
+MISC_ACTIONS = ['rerun']        # just another bob dev
 
 
 def apply_spec(spec, a):
@@ -108,6 +121,10 @@ def apply_spec(spec, a):
     elif k == 'nested': s['nested'] ^= 1
     elif k == 'rebase': s['rebase'] ^= 1
     elif k == 'dep': s['dep'] ^= 1
+    elif k == 'urlnest': s['urlnest'] ^= 1
+    elif k == 'urlver':
+        if not s['urlnest']: return None
+        s['urlver'] ^= 1
     if s['url'] == 'repo2' and s['ref'] != 'branch:master': return None        # repo2 only has master
     return s
 
@@ -160,6 +177,10 @@ def user_action(ws, a, k):
         git(ws, 'checkout', '-q', '-b', 'local%d' % k)
         with open(os.path.join(ws, 'b%d.txt' % k), 'w') as f: f.write(marker + '\n')
         git(ws, 'add', '.'); git(ws, 'commit', '-q', '-m', marker)
+    elif a == 'w_vendor':
+        # an untracked directory of the user where a later SCM of the recipe wants to check out
+        os.makedirs(os.path.join(ws, 'vendor'), exist_ok=True)
+        with open(os.path.join(ws, 'vendor', 'lib.h'), 'w') as f: f.write(marker + '\n')
     elif a == 'w_commit_side':
         # unpushed commit on the current branch, then hop to another local branch before Bob runs again
         marker = user_action(ws, 'w_commit', k)
@@ -328,6 +349,11 @@ def run(ctx):
     hists.append((('w_commit_side', 's_dev'), (), None, 'default'))
     hists.append((('w_commit_side', 'u_commit'), (), None, 'default'))
     hists.append((('s_bc1',), (), None, 'branch+commit')); hists.append((('s_bc1', 's_bc0'), (), None, 'branch+commit'))
+    # a url SCM without digest nested into the git workspace: release changes (same file name), appears where the user has files
+    hists += [(('s_urlver',), (), None, 'urlnest'), (('s_urlver', 's_urlver'), (), None, 'urlnest'), (('s_urlnest',), (), None, 'urlnest'),
+              (('w_mod', 's_urlver'), (), None, 'urlnest'), (('s_urlver', 's_dev'), (), None, 'urlnest'),
+              (('w_vendor', 's_urlnest', 'rerun'), (), None, 'default'), (('w_vendor', 's_urlnest', 'rerun', 'rerun'), (), ['clean', '-s'], 'default'),
+              (('s_urlnest', 's_urlver'), (), None, 'default')]
     # two SCMs in one workspace, user work in the first one, the package leaves the project, clean -s
     for w in ('w_mod', 'w_untracked', 'w_commit'):
         hists.append(((w, 's_drop'), (), ['clean', '-s'], 'nested'))
